@@ -1,6 +1,7 @@
 SPECIFICATION Spec
 CONSTANTS MaxLen = 3
  WithBackslash = FALSE
+ Explore = TRUE
 INVARIANT FoldEqualsDeclarative
 INVARIANT JoinAssociative
 INVARIANT AbsoluteWins
